@@ -922,11 +922,13 @@ class ConstructedPayloadDecoderBase(AbstractConstructedPayloadDecoder):
             idx = 0
 
             while True:  # loop over components
-                if len(namedTypes) <= idx:
-                    asn1Spec = None
-
-                elif isSetType:
+                if isSetType and namedTypes:
+                    # SET components come in any order, position of the
+                    # previous one says nothing about the next
                     asn1Spec = namedTypes.tagMapUnique
+
+                elif len(namedTypes) <= idx:
+                    asn1Spec = None
 
                 else:
                     try:
